@@ -191,9 +191,75 @@ def construction_sequences(ck):
                         return
 
 
+PLACEMENTS = [(1e-4, 0j), (1e-7, 0j), (1e5, 0j), (1.0, -1e6 + 2e6j), (100.0, 3e6 - 1e6j), (0.01, 2000 + 1000j)]
+
+
+def similar_copies(ck, arc, A):
+    """the same arc drawn in other units and elsewhere: centre, angles, points, derivatives and the Bezier approximations are those of the base arc, mapped
+    (an arc has no preferred unit of length and no preferred origin)"""
+    size = abs(arc.radius.real) + abs(arc.radius.imag) + abs(arc.end - arc.start)
+    for k, off in PLACEMENTS:
+        ck.case(fp=('placed', str(A), k, str(off)), nontrivial=True)
+        tol = 1e-6 * size * k + 4e-10 * abs(off)
+        try:
+            cp = sp.Arc(off + k * arc.start, k * arc.radius, arc.rotation, arc.large_arc, arc.sweep, off + k * arc.end)
+            bad = None
+            if not (abs(cp.center - (off + k * arc.center)) <= tol):
+                bad = ('center', off + k * arc.center, cp.center)
+            elif not (abs(cp.delta - arc.delta) <= 1e-4 + 1e-3 * abs(off) / (k * size) * 1e-6) or not (abs(am.angle_diff(cp.theta, arc.theta)) <= 1e-4 + 1e-3 * abs(off) / (k * size) * 1e-6):
+                bad = ('theta/delta', (arc.theta, arc.delta), (cp.theta, cp.delta))
+            elif not (abs(cp.radius - k * arc.radius) <= 1e-9 * k * size + 1e-12 * abs(off)):
+                bad = ('radius', k * arc.radius, cp.radius)
+            else:
+                for t in (0.0, 0.3, 0.5, 1.0):
+                    if not (abs(cp.point(t) - (off + k * arc.point(t))) <= tol):
+                        bad = ('point(%r)' % t, off + k * arc.point(t), cp.point(t))
+                        break
+                    if not (abs(cp.derivative(t) - k * arc.derivative(t)) <= 1e-5 * size * k + 1e-8 * abs(off)):
+                        bad = ('derivative(%r)' % t, k * arc.derivative(t), cp.derivative(t))
+                        break
+            if bad is None:
+                for m in (1, 2, 3, 5, 8):
+                    for name in ('as_cubic_curves', 'as_quad_curves'):
+                        curves = list(getattr(cp, name)(m))
+                        if len(curves) != m or not (abs(curves[0].start - cp.start) <= 1e-9 * k * size + 4e-16 * abs(off)) or not (abs(curves[-1].end - cp.end) <= 1e-9 * k * size + 4e-16 * abs(off)) \
+                                or any(not (abs(a_.end - b_.start) <= 1e-9 * k * size + 4e-16 * abs(off)) for a_, b_ in zip(curves, curves[1:])):
+                            bad = ('%s(%d)' % (name, m), (m, cp.start, cp.end), (len(curves), curves[0].start if curves else None, curves[-1].end if curves else None))
+                            break
+                    if bad:
+                        break
+        except Exception as e:      # noqa
+            bad = ('raises', 'an Arc', repr(e))
+        if bad:
+            ck.disagree(key='Arc/similar-copy/' + bad[0].split('(')[0], site='svgpathtools/path.py:Arc', what='lattice arc %s drawn at scale %g, offset %r: %s = %r, the base arc mapped gives %r' % (A, k, off, bad[0], bad[2], bad[1]),
+                        case={'arc': A, 'scale': k, 'off': str(off)}, expected=repr(bad[1]), observed=repr(bad[2]), driver='placement')
+            return
+
+
+def nearly_closed_large_arcs(ck):
+    """large_arc = 1 with the end a hair away from the start: (almost) the whole ellipse, in the direction of sweep"""
+    for r, rot in ((2 + 1j, 20), (5 + 5j, 0), (1 + 3j, -40)):
+        for gap in (1e-9, 5e-9, 2e-8, 1e-6, 1e-3):
+            for sw in (True, False):
+                for dirn in (1 + 0j, 0.6 - 0.8j):
+                    s0 = 3 + 4j
+                    ck.case(fp=('nearly-closed', str(r), rot, gap, sw, str(dirn)), nontrivial=True)
+                    try:
+                        a = sp.Arc(s0, r, rot, True, sw, s0 + gap * dirn)
+                        far = abs(a.point(0.5) - s0)
+                        ok = abs(a.delta) > 180 and (a.delta > 0) == sw and far >= min(r.real, r.imag) and abs(a.point(0) - s0) <= 1e-6 and abs(a.point(1) - a.end) <= 1e-6
+                        got = (a.delta, a.point(0.5))
+                    except Exception as e:      # noqa
+                        ok, got = False, repr(e)
+                    if not ok:
+                        ck.disagree(key='Arc/nearly-closed-large-arc', site='svgpathtools/path.py:Arc._parameterize', what='Arc(%r, %r, %r, large_arc=True, sweep=%s, start + %g): delta, point(.5) = %r' % (s0, r, rot, sw, gap, got),
+                                    case={'r': str(r), 'rot': rot, 'gap': gap, 'sweep': sw}, expected='|delta| > 180 in the direction of sweep, the far side of the ellipse at t = 1/2', observed=repr(got), driver='placement')
+
+
 def run(ck):
     rnd = random.Random(ck.seed)
     quick = ck.tier == 'quick'
+    nearly_closed_large_arcs(ck)
     ck.rules.append('case = one lattice arc [radii, rotation, start angle, sweep, centre] (angles in units of 15 degrees, rotations incl. -90 and '
                     '390) walked in 15-degree steps; distinct by the abstract arc; all non-trivial; plus the too-small-radius family')
     ck.assumptions += ['theta/delta compared to 1e-5 degrees (acos near +-1 loses half the digits); centre 1e-7, points 1e-6 relative',
@@ -208,7 +274,9 @@ def run(ck):
     def on_case(c):
         st['n'] += 1
         if c['arc']['kind'] == 'fit':
-            check_fit(ck, c, rnd, full=(st['n'] % (4 if quick else 2) == 0))
+            ok_ = check_fit(ck, c, rnd, full=(st['n'] % (4 if quick else 2) == 0))
+            if ok_ and st['n'] % (40 if quick else 8) == 0:
+                similar_copies(ck, am.concretise(c['arc'], neg_radius=False), c['arc'])
             ck.sample('fit', c)
         else:
             check_small(ck, c)
